@@ -71,11 +71,19 @@ template<typename T> static void fi_use(frequent_items_sketch<T>& s) {
   (void)fi_readout(fresh);
 }
 
+// cheap read-outs for accepted objects that own a block > 64 MiB (see accept()): nothing here scales with the object's size
+template<typename T> static void fi_cheap(frequent_items_sketch<T>& s) {
+  typedef FiItem<T> I;
+  (void)s.is_empty(); (void)s.get_num_active_items(); (void)s.get_total_weight(); (void)s.get_maximum_error(); (void)s.get_epsilon();
+  (void)s.get_estimate(I::make(1)); (void)s.get_upper_bound(I::make(2));
+  s.update(I::make(3), 2);
+  (void)s.get_estimate(I::make(3));
+}
 template<typename T> static std::string fi_bytes(const void* p, size_t n, bool use) {
-  return accept([&] { return frequent_items_sketch<T>::deserialize(p, n); }, fi_readout<T>, fi_use<T>, use);
+  return accept([&] { return frequent_items_sketch<T>::deserialize(p, n); }, fi_readout<T>, fi_use<T>, use, fi_cheap<T>);
 }
 template<typename T> static std::string fi_stream(std::istream& is, bool use) {
-  return accept([&] { return frequent_items_sketch<T>::deserialize(is); }, fi_readout<T>, fi_use<T>, use);
+  return accept([&] { return frequent_items_sketch<T>::deserialize(is); }, fi_readout<T>, fi_use<T>, use, fi_cheap<T>);
 }
 
 enum FK { F_EMPTY, F_SINGLE, F_FEW, F_GROWN, F_PURGED, F_BIGCFG };
@@ -148,11 +156,17 @@ static void cm_use(cm_sketch& s) {
   (void)cm_readout(s);
   (void)cm_readout(fresh);
 }
+static void cm_cheap(cm_sketch& s) {
+  (void)s.get_num_hashes(); (void)s.get_num_buckets(); (void)s.get_seed(); (void)s.is_empty(); (void)s.get_total_weight(); (void)s.get_relative_error();
+  (void)s.get_estimate(static_cast<uint64_t>(7));
+  s.update(static_cast<uint64_t>(7), 3);
+  (void)s.get_estimate(static_cast<uint64_t>(7)); (void)s.get_upper_bound(static_cast<uint64_t>(7));
+}
 static std::string cm_bytes(const void* p, size_t n, bool use) {
-  return accept([&] { return cm_sketch::deserialize(p, n, DEFAULT_SEED); }, cm_readout, cm_use, use);
+  return accept([&] { return cm_sketch::deserialize(p, n, DEFAULT_SEED); }, cm_readout, cm_use, use, cm_cheap);
 }
 static std::string cm_stream(std::istream& is, bool use) {
-  return accept([&] { return cm_sketch::deserialize(is, DEFAULT_SEED); }, cm_readout, cm_use, use);
+  return accept([&] { return cm_sketch::deserialize(is, DEFAULT_SEED); }, cm_readout, cm_use, use, cm_cheap);
 }
 enum CK { C_EMPTY, C_FEW, C_MANY };
 static Bytes cm_image(Rng& r, bool T_, int kind) {
@@ -242,17 +256,22 @@ static void bloom_use(bloom_filter& f) {
   f.reset();
   (void)bloom_readout(f);
 }
+static void bloom_cheap(bloom_filter& f) {
+  (void)f.get_capacity(); (void)f.get_num_hashes(); (void)f.get_seed(); (void)f.is_empty(); (void)f.is_read_only();
+  (void)f.query(static_cast<uint64_t>(11));
+  if (!f.is_read_only()) { f.update(static_cast<uint64_t>(11)); (void)f.query(static_cast<uint64_t>(11)); }
+}
 static std::string bloom_bytes(const void* p, size_t n, bool use) {
-  return accept([&] { return bloom_filter::deserialize(p, n); }, bloom_readout, bloom_use, use);
+  return accept([&] { return bloom_filter::deserialize(p, n); }, bloom_readout, bloom_use, use, bloom_cheap);
 }
 static std::string bloom_stream(std::istream& is, bool use) {
-  return accept([&] { return bloom_filter::deserialize(is); }, bloom_readout, bloom_use, use);
+  return accept([&] { return bloom_filter::deserialize(is); }, bloom_readout, bloom_use, use, bloom_cheap);
 }
 static std::string bloom_wrap(const void* p, size_t n, bool use) {
-  return accept([&] { return bloom_filter::wrap(p, n); }, bloom_readout, bloom_use, use);
+  return accept([&] { return bloom_filter::wrap(p, n); }, bloom_readout, bloom_use, use, bloom_cheap);
 }
 static std::string bloom_wwrap(uint8_t* p, size_t n, bool use) {
-  return accept([&] { return bloom_filter::writable_wrap(static_cast<void*>(p), n); }, bloom_readout, bloom_use, use);
+  return accept([&] { return bloom_filter::writable_wrap(static_cast<void*>(p), n); }, bloom_readout, bloom_use, use, bloom_cheap);
 }
 enum BK { B_EMPTY, B_FEW_DIRTY, B_FEW_COUNTED, B_DENSE };
 static Bytes bloom_image(Rng& r, bool T_, int kind) {
